@@ -12,10 +12,10 @@ evaluated on the implementation.
 import re
 import vlib
 
-NAMES = ["a", "b", "x", "y", "q", "ab", "ax", "1", "2", "10", "x,y", "a*"]
+NAMES = ["a", "b", "x", "y", "q", "ab", "ax", "1", "2", "10", "x,y", "a*", "a\\b"]
 PLAIN = ["a", "b", "x", "y", "q", "ab", "ax", "1", "2", "10"]
 # clauses that take the hash-lookup path (unique / list of unique values) ...
-LITERAL = ["a", "b", "x", "y", "q", "ab", "ax", "1", "2", "10", "x\\,y", "a\\*", "a,b", "x,y", "a,x,q", "ab,ax", "b,,a", "1,2", "x\\,y,a", "a,a", "q,b,x"]
+LITERAL = ["a", "b", "x", "y", "q", "ab", "ax", "1", "2", "10", "x\\,y", "a\\*", "a,b", "x,y", "a,x,q", "ab,ax", "b,,a", "1,2", "x\\,y,a", "a,a", "q,b,x", "a\\\\b", "a\\\\b,q", "x,a\\\\b"]
 # ... and clauses that force the iteration path
 WILD = ["*", "*", "a*", "*x", "?", "?b", "a?", "[ab]", "[a-c]*", "(a|b)", "(ab|x)", "~a", "~a*", "<1-2>", "<2->", "<-5>", "*,q", "a*,b", "[xy]", "~<2-3>", "?*"]
 FILTERS = ["g2", "l5", "e3", "x", "g5", "l2", "g-1", "-"]
@@ -215,6 +215,8 @@ DIRECTED = [
     "a:h;a:h;a:h;s:1:0:a=1;s:2:0:a=2;m:0:1:a::-;d:1;m:0:2:a::-;m:0:3:::-;d:2;m:0:4:a::-;m:0:5:::-",
     # odd node names reached through escaped unique clauses and lists of them
     "a:h;a:h;s:1:0:x,y=1&a*=2&a=3&ab=4;t:0:g:1:-1:x\\,y:;t:0:g:1:-1:a\\*:;t:0:g:1:-1:a*:;t:0:g:1:-1:x\\,y,a:;t:0:g:1:-1:x,y:;t:0:g:1:-1:a\\*,ab&x\\,y:",
+    # F39: a list-of-unique-values clause whose item contains an escaped backslash must look up the name a\\b, not ab
+    "a:h;a:h;s:1:0:a\\b=1&ab=3&c=2;t:0:g:1:-1:a\\\\b,c:;t:0:g:1:-1:a\\\\b:;t:0:g:1:-1:a\\\\b,c&*:;m:0:1234:a\\\\b,zz::-",
     # maximum results: abort of the traversal (-1)
     "a:h;a:h;a:h;s:1:0:a=1&b=2&a/x=3;s:2:0:a=4&b=5;t:0:g:1:0:*:;t:0:g:1:1:*:;t:0:g:1:2:*&*/*:;t:0:g:1:3:*&*/*:;t:0:g:1:9:*&*/*:;fn:0:1:/*/*/a;fn:1:2:*;fn:1:-1:a/*;fs:0:1:1:*;fs:0:1:2:*",
 ]
